@@ -8,7 +8,7 @@
 (*                <<pin characters, accepted>>                                                   *)
 (* Every case is judged with the RULES operators of HostMatch (the ones stage 1 proves MATCHER   *)
 (* against and stage 2 emits from).  The monitor is total: one VERDICT line per failing case,    *)
-(* one DONE line per trace with the three-valued tallies.                                        *)
+(* one DONE line per trace with the three-valued tallies and the number of VERDICT lines.        *)
 EXTENDS HostMatch, Json, IOUtils, TLCExt
 
 T == JsonDeserialize(IOEnv.TRACE_FILE)
@@ -76,8 +76,10 @@ TInit == st = 1
 TNext == /\ st <= Len(T.traces)
          /\ LET tr == T.traces[st]
                 ty == Tally(tr) IN
-            /\ \A b \in Bad(tr) : PrintT(<<"VERDICT", st, b[1], b[2], b[3]>>)
-            /\ PrintT(<<"DONE", st, ty[1], ty[2], ty[3], ty[4]>>)
+            \* one STRING per line: TLC's pretty-printer wraps long tuples over several lines, never a string
+            /\ \A b \in Bad(tr) : PrintT("VERDICT|" \o ToString(st) \o "|" \o ToString(b[1]) \o "|" \o b[2] \o "|" \o b[3])
+            /\ PrintT("DONE|" \o ToString(st) \o "|" \o ToString(ty[1]) \o "|" \o ToString(ty[2]) \o "|" \o ToString(ty[3])
+                       \o "|" \o ToString(ty[4]) \o "|" \o ToString(Cardinality(Bad(tr))))
          /\ st' = st + 1
 TSpec == TInit /\ [][TNext]_vars
 =============================================================================
